@@ -23,6 +23,15 @@ ARQ = ("Modelled, not verified: f64 rounding (exact integer lengths, multiples o
        "unbounded recursion, adequacy is a theorem under the arena invariant (depth < size by pigeonhole); stack depth on extremely deep trees. ")
 
 CLAIMS = {
+ "C13": dict(
+   text="Kernel-checked theorems for EVERY matrix size: the triangular index maps unordered pairs of distinct taxa below n injectively into [0, n(n-1)/2), symmetric in its "
+        "arguments, with an explicit integer inverse proved to be a two-sided inverse (so cells and pairs are in bijection); by-index and by-name store laws (a value set for a pair "
+        "is read back for that pair in either order and for no other pair; identical taxa read zero; set on identical taxa accepted iff zero); indexed iteration lists every cell once "
+        "under the pair the index assigns; the pair-keyed map is exactly all ordered pairs with get's values; extremum search returns an iterated entry. Tied to the crate on every "
+        "size 0..40 over all cells (reads, sets with full read-back, iteration, map, extrema with ties) and random set/get sequences. The crate's FLOATING-POINT inverse is compared with an "
+        "integer inverse through the hook at triangular-number boundaries below 2^50 (all of them in the thorough tier).",
+   note=NOTE + "Modelled, not verified: the f64 sqrt/floor inverse rowvec_to_tril_index (boundary sweep + IEEE monotonicity argument, a check and not a theorem); entries are small integers held exactly in f64.",
+   technique="Lean 4 proofs of the index bijection and store laws for all sizes + exhaustive small-size differential execution + boundary sweep of the float inverse", ref="5 C13"),
  "C04": dict(
    text="Kernel-checked theorems (1) on a state-machine model of the two RefCell caches: after the documented reset a query returns the value for the current tree, any number of "
         "queries return that value and never change the tree (induction over the query list), an edit followed by the reset is seen by every later query, and without the reset a "
